@@ -128,6 +128,9 @@ class Ctx(object):
                 store.append((label, fn, _copy.deepcopy(args), _copy.deepcopy(res)))
             except Exception:
                 pass
+        # the caller then does what callers do with a result they own: writes into it in place.  If the library handed out
+        # an object it also keeps (a memo, a cached table), the repeated call will return the overwritten values.
+        scribble(res)
         return res
 
     def recheck_later(self):
@@ -272,6 +275,10 @@ def guarded_check(prop, case, ctx):
         import xfab
         xfab.CHECKS._run_checks = False
         ctx.event("input-checks-switched-off")
+    from . import oracles as _O
+    _O.LAYOUT_F = (case_hash(case) // 7) % 4 == 0
+    if _O.LAYOUT_F:
+        ctx.event("column-major-2d-arrays")
     try:
         prop.check(case, ctx)
         ctx.verify_kept()
@@ -390,6 +397,27 @@ def _worker(args):
         return ("harness", str(e))
     except Exception as e:
         return ("harness", "".join(traceback.format_exception(type(e), e, e.__traceback__)))
+
+
+def scribble(x, depth=0):
+    """overwrite a returned object in place (every writable ndarray / list element becomes -7): a result belongs to the
+    caller, who may do this at any time; later calls must not be affected"""
+    import numpy as _np
+    try:
+        if isinstance(x, _np.ndarray):
+            if x.flags.writeable and x.size and x.dtype.kind in "fiuc":
+                x[...] = -7
+        elif isinstance(x, list) and depth < 4:
+            for i in range(len(x)):
+                if isinstance(x[i], (list, tuple, _np.ndarray)):
+                    scribble(x[i], depth + 1)
+                elif isinstance(x[i], (int, float)) and not isinstance(x[i], bool):
+                    x[i] = -7
+        elif isinstance(x, tuple) and depth < 4:
+            for e in x:
+                scribble(e, depth + 1)
+    except Exception:
+        pass
 
 
 def load_known():
